@@ -46,6 +46,10 @@ pub struct WbCase {
     /// the store idles and the sparse probes follow
     #[serde(default)]
     pub sustained_ms: u16,
+    /// after the burst drained: the store is left alone for this many ms before the sparse probes;
+    /// the first probe after the idle period must be on the device within 3 s (+ measured stalls)
+    #[serde(default)]
+    pub idle_ms: u16,
 }
 
 fn strat() -> BoxedStrategy<WbCase> {
@@ -63,21 +67,26 @@ fn strat() -> BoxedStrategy<WbCase> {
         prop_oneof![6 => Just(None), 1 => (24u16..64, 1u8..7, prop_oneof![Just(100u16), 300u16..1200, 1200u16..3500]).prop_map(Some)],
         prop_oneof![10 => Just(0u16), 1 => 64u16..200],
     )
-        .prop_flat_map(|t| (Just(t), prop_oneof![6 => Just(0u16), 1 => 300u16..900]))
-        .prop_map(|((visible_cpus, keys, hot_updates, overwrite_pct, delete_pct, hammer, value_len, plain_io, ttl_sweep, probes, full_device, value_kib), sustained_ms)| {
+        .prop_flat_map(|t| (Just(t), prop_oneof![6 => Just(0u16), 1 => 300u16..900], prop_oneof![39 => Just(0u16), 1 => 6500u16..7500]))
+        .prop_map(|((visible_cpus, keys, hot_updates, overwrite_pct, delete_pct, hammer, value_len, plain_io, ttl_sweep, probes, full_device, value_kib), sustained_ms, idle_ms)| {
+            if idle_ms > 0 {
+                // a quiet store: small burst, idle period, then sparse probes
+                return WbCase { visible_cpus, keys, hot_updates: 0, overwrite_pct, delete_pct, hammer: false, value_len: value_len.min(400), plain_io, ttl_sweep: false, probes: probes.clamp(3, 6), full_device: None, value_kib: 0, sustained_ms: 0, idle_ms };
+            }
             if sustained_ms > 0 {
                 // sustained pressure, then idle, then sparse probes on every shard
-                return WbCase { visible_cpus, keys, hot_updates: 0, overwrite_pct, delete_pct, hammer: false, value_len: value_len.min(400), plain_io, ttl_sweep: false, probes: probes.max(12), full_device: None, value_kib: 0, sustained_ms };
+                return WbCase { visible_cpus, keys, hot_updates: 0, overwrite_pct, delete_pct, hammer: false, value_len: value_len.min(400), plain_io, ttl_sweep: false, probes: probes.max(12), full_device: None, value_kib: 0, sustained_ms, idle_ms: 0 };
             }
             // byte-filling bursts: no hot key (its updates would multiply the bytes), no sweeper
             let big = value_kib > 0 && full_device.is_none();
-            WbCase { visible_cpus, keys, hot_updates: if big { 0 } else { hot_updates }, overwrite_pct: if big { overwrite_pct / 4 } else { overwrite_pct }, delete_pct, hammer, value_len, plain_io, ttl_sweep: ttl_sweep && !big, probes, full_device, value_kib: if big { value_kib } else { 0 }, sustained_ms: 0 }
+            WbCase { visible_cpus, keys, hot_updates: if big { 0 } else { hot_updates }, overwrite_pct: if big { overwrite_pct / 4 } else { overwrite_pct }, delete_pct, hammer, value_len, plain_io, ttl_sweep: ttl_sweep && !big, probes, full_device, value_kib: if big { value_kib } else { 0 }, sustained_ms: 0, idle_ms: 0 }
         })
         .boxed()
 }
 
 #[derive(Default, Clone)]
 pub struct WbNotes {
+    pub idled: bool,
     pub sustained: bool,
     pub shards: usize,
     pub workers: usize,
@@ -393,6 +402,10 @@ pub fn judge(case: &WbCase, notes: &mut WbNotes) -> Result<(), (String, String)>
             // let the hammer key drain first
             std::thread::sleep(Duration::from_millis(300));
         }
+        if case.idle_ms > 0 {
+            std::thread::sleep(Duration::from_millis(case.idle_ms as u64));
+            notes.idled = true;
+        }
         for i in 0..case.probes as u16 {
             let k = format!("wb-probe-{i:02}-{}", case.keys).into_bytes();
             let v = val(10_000 + i, 1);
@@ -406,6 +419,13 @@ pub fn judge(case: &WbCase, notes: &mut WbNotes) -> Result<(), (String, String)>
                     break;
                 }
                 let stall = Duration::from_millis(max_stall.load(Ordering::Relaxed) * 5);
+                if case.idle_ms > 0 && i == 0 && t0.elapsed() > Duration::from_secs(3) + stall * 2 {
+                    verdict = Err((
+                        "first-write-after-idle-slow".into(),
+                        format!("the first accepted write after {} ms without traffic ({}) is still not on the device {} ms after the call returned (no explicit flush, flush interval 100 ms, max scheduling stall {} ms)", case.idle_ms, String::from_utf8_lossy(&k), t0.elapsed().as_millis(), max_stall.load(Ordering::Relaxed)),
+                    ));
+                    break;
+                }
                 if t0.elapsed() > HARD + stall {
                     let snap = store.verif_snapshot();
                     let stuck: Vec<usize> = snap.shard_pending.iter().enumerate().filter(|(_, n)| **n > 0).map(|(s, _)| s).collect();
@@ -522,6 +542,9 @@ pub fn run(tier: Tier, seed: u64, replay: Option<&str>) -> i32 {
             if notes.sustained {
                 *c.entry("sustained_pressure_then_sparse_probes".into()).or_insert(0) += 1;
             }
+            if notes.idled {
+                *c.entry("idle_period_then_sparse_probes".into()).or_insert(0) += 1;
+            }
             if case.value_kib > 0 && case.full_device.is_none() {
                 *c.entry("byte_filling_burst".into()).or_insert(0) += 1;
                 if case.keys as usize * case.value_kib as usize > 16 * 1024 * notes.shards.max(1) {
@@ -557,7 +580,7 @@ pub fn run(tier: Tier, seed: u64, replay: Option<&str>) -> i32 {
         tier,
         seed,
         "exploration",
-        "proptest-generated live workloads without any explicit flush on stores built with 1..8 workers/shards (2-16 visible CPUs): 64-260 distinct keys (so all shards are hit), overwrites and deletes whose old generations must be retired, optional buffer-filling burst on one key (>1024 entries in one shard), one case in seven with 2-4 threads overwriting their own keys without pause for 0.3-0.9 s (workers busy across several periodic ticks, wake-up channels full) followed by at least 12 sparse probes, one case in eleven with values of 64-200 KiB (a burst whose bytes exceed a shard's 16 MiB buffer), optional hammering neighbour thread, optional TTL keys removed by the sweeper, small to 9 KB values, both I/O paths, odd and even CPU counts; a quarter of the cases continues with 8-15 single writes issued one at a time, each awaited separately (sparse traffic); a seventh of the cases instead fills a 24-63 block device with one-block records, issues 1-6 further accepted writes that must wait for space for 0.1-3.5 s, reclaims space with accepted deletes and requires the waiting writes on the device within the same bound. After the last call returns the harness polls (peek/snapshot hooks) until every accepted key has a device extent and, without a busy neighbour, no buffered entry or retirement is pending; then the fsync-covered image rebuilt from the I/O trace must decode (independent codec) to the final values with no superseded generation left, and recover. Violation only if not drained 15 s + 5x the largest measured scheduling stall after the last call, reproduced twice; 2 s..15 s is recorded as slow. Non-trivial: at least two shards held pending entries at the end of the burst, one of them owned by a worker other than worker 0.",
+        "proptest-generated live workloads without any explicit flush on stores built with 1..8 workers/shards (2-16 visible CPUs): 64-260 distinct keys (so all shards are hit), overwrites and deletes whose old generations must be retired, optional buffer-filling burst on one key (>1024 entries in one shard), one case in seven with 2-4 threads overwriting their own keys without pause for 0.3-0.9 s (workers busy across several periodic ticks, wake-up channels full) followed by at least 12 sparse probes, one case in forty left idle for 6.5-7.5 s before 3-6 sparse probes (the first of them must be on the device within 3 s + measured stalls: nothing may slow the periodic flusher down while the store is quiet), one case in eleven with values of 64-200 KiB (a burst whose bytes exceed a shard's 16 MiB buffer), optional hammering neighbour thread, optional TTL keys removed by the sweeper, small to 9 KB values, both I/O paths, odd and even CPU counts; a quarter of the cases continues with 8-15 single writes issued one at a time, each awaited separately (sparse traffic); a seventh of the cases instead fills a 24-63 block device with one-block records, issues 1-6 further accepted writes that must wait for space for 0.1-3.5 s, reclaims space with accepted deletes and requires the waiting writes on the device within the same bound. After the last call returns the harness polls (peek/snapshot hooks) until every accepted key has a device extent and, without a busy neighbour, no buffered entry or retirement is pending; then the fsync-covered image rebuilt from the I/O trace must decode (independent codec) to the final values with no superseded generation left, and recover. Violation only if not drained 15 s + 5x the largest measured scheduling stall after the last call, reproduced twice; 2 s..15 s is recorded as slow. Non-trivial: at least two shards held pending entries at the end of the burst, one of them owned by a worker other than worker 0.",
     );
     ev.started = started;
     ev.evaluations = evaluations.load(Ordering::Relaxed);
